@@ -398,3 +398,121 @@ func TestVerifTrieVerify(t *testing.T) {
 		fmt.Fprintf(w, "%d\n", vtVerify(&qy))
 	}
 }
+
+// ---- Revert / Stash / LoadCache (C10, item: trie_revert.go, trie_cache.go) ----
+type vtRevCase struct {
+	Hash    string    `json:"hash"`
+	Batches []vtBatch `json:"batches"` // every batch is committed
+	Target  int       `json:"target"`  // revert to the root after batch <target>
+	Q       []string  `json:"q"`
+	Stash   bool      `json:"stash"` // instead of Revert: one more uncommitted Update then Stash
+}
+
+type vtRevObs struct {
+	Roots      []string   `json:"roots"`
+	Gets       [][]string `json:"gets"`
+	RevertErr  string     `json:"revert_err"`
+	RootAfter  string     `json:"root_after"`
+	GetsAfter  []string   `json:"gets_after"`
+	PastLen    int        `json:"past_len"`
+	Readable   []string   `json:"readable"` // per batch index: "" ok, else error of a fresh instance at that root
+	FreshGets  [][]string `json:"fresh_gets"`
+	Dels       []string   `json:"dels"`       // keys collected by Revert (nodesToRevert[:32]), sorted
+	LiveCache  int        `json:"live_cache"` // entries in liveCache at the end (LoadCache called on a fresh instance)
+	CacheLimit int        `json:"cache_limit"`
+	Err        string     `json:"err"`
+}
+
+func vtRunRevert(c *vtRevCase) (o vtRevObs) {
+	defer func() {
+		if r := recover(); r != nil {
+			o.Err = fmt.Sprint("panic: ", r)
+		}
+	}()
+	hash := pickHash(c.Hash)
+	store := vtNewStore()
+	tr := NewTrie(nil, hash, store)
+	q := unhxs(c.Q)
+	var roots [][]byte
+	for bi, b := range c.Batches {
+		root, err := tr.Update(unhxs(b.K), unhxs(b.V))
+		if err != nil {
+			o.Err = fmt.Sprintf("batch %d: %v", bi, err)
+			return
+		}
+		if c.Stash && bi == len(c.Batches)-1 {
+			// the last batch stays uncommitted and is stashed
+			if err := tr.Stash(true); err != nil {
+				o.RevertErr = err.Error()
+			}
+			break
+		}
+		if err := tr.Commit(); err != nil {
+			o.Err = err.Error()
+			return
+		}
+		root = append([]byte{}, root...)
+		roots = append(roots, root)
+		o.Roots = append(o.Roots, hx(root))
+		g, err := vtGets(tr, q)
+		if err != nil {
+			o.Err = err.Error()
+			return
+		}
+		o.Gets = append(o.Gets, g)
+	}
+	if !c.Stash {
+		if err := tr.Revert(roots[c.Target]); err != nil {
+			o.RevertErr = err.Error()
+		}
+		for _, n := range tr.db.nodesToRevert {
+			if len(n) >= HashLength {
+				o.Dels = append(o.Dels, hx(n[:HashLength]))
+			} else {
+				o.Dels = append(o.Dels, hx(n))
+			}
+		}
+		sort.Strings(o.Dels)
+	}
+	o.RootAfter = hx(tr.Root)
+	o.PastLen = len(tr.pastTries)
+	if g, err := vtGets(tr, q); err != nil {
+		o.Err = "get after revert: " + err.Error()
+	} else {
+		o.GetsAfter = g
+	}
+	for _, r := range roots {
+		ft := NewTrie(r, hash, store)
+		g, err := vtGets(ft, q)
+		if err != nil {
+			o.Readable = append(o.Readable, err.Error())
+			o.FreshGets = append(o.FreshGets, nil)
+		} else {
+			o.Readable = append(o.Readable, "")
+			o.FreshGets = append(o.FreshGets, g)
+		}
+	}
+	// LoadCache with the node's configuration: CacheHeightLimit = TrieHeight+1
+	ft := NewTrie(nil, hash, store)
+	o.CacheLimit = ft.CacheHeightLimit
+	if len(roots) > 0 {
+		ft.LoadCache(roots[len(roots)-1])
+		o.LiveCache = len(ft.db.liveCache)
+	}
+	return
+}
+
+func TestVerifTrieRevert(t *testing.T) {
+	sc, w, done := vtOpen(t)
+	defer done()
+	for sc.Scan() {
+		var c vtRevCase
+		if err := json.Unmarshal(sc.Bytes(), &c); err != nil {
+			t.Fatal(err)
+		}
+		o := vtRunRevert(&c)
+		b, _ := json.Marshal(&o)
+		w.Write(b)
+		w.WriteByte('\n')
+	}
+}
